@@ -331,6 +331,29 @@ def nestStack (depth : Nat) (off : Int) : Stack :=
 def traceCount (l : Limits) (depth : Nat) : Nat :=
   (newErrorTrace (nestStack depth 1) l.trace 0 (some 1)).length
 
+/-! ## building the message of an engine error -/
+
+/-- sites that raise a TypeError because a value is not callable -/
+inductive MsgSite
+  | callResult | newResult                                   -- cmpl_evaluate_expression.go:246 / :315  `"%v is not a function", vl`
+  | forEach | map | filter | some | every | reduce | reduceRight | sort   -- builtin_array.go  `"… %q …", call.Argument(0)`
+  | fnCall | fnApply | fnBind                                -- builtin_function.go:75/108/125  `%q, call.This`
+  | objToLocale | arrToLocale | dateToJSON                   -- builtin_object.go:85, builtin_array.go:69, builtin_date.go:91
+  | definePropGetter                                         -- toPropertyDescriptor: a literal text
+  | identCallee | memberCallee                               -- cmpl_evaluate_expression.go:248  `%q, name` (the NAME, not the value)
+deriving Repr, DecidableEq
+
+/-- does the site hand the offending VALUE to `newError` as a format operand? -/
+def passesValue : MsgSite → Bool
+  | .definePropGetter | .identCallee | .memberCallee => false
+  | _ => true
+
+/-- script functions run while the message is built, when the offending value is an object with a scripted
+    toString: `fmt` formats a `Value` operand through `Value.String()` = ToString, which calls it (a throw inside
+    is swallowed by `Value.String`'s catchPanic, the call has happened all the same) -/
+def messageScriptCalls (s : MsgSite) : List String :=
+  if passesValue s then ["ts"] else []
+
 /-! ## several errors alive at once -/
 
 /-- error.go:139-190: `newError` builds `err.trace` by appending to the new error's own (nil) slice, so every error
@@ -368,6 +391,7 @@ inductive ErrKind
   | inNonObj          -- evaluate.go:129
   | cyclicJSON        -- builtin_json.go
   | uriMalformed      -- builtin.go
+  | frozenWrite       -- a built-in writes to a frozen / non-extensible object with throw = true: `typeErrorResult` → panicTypeError()
 deriving Repr, DecidableEq
 
 /-- (constructor name passed to `newError`, message is non-empty) -/
@@ -389,6 +413,7 @@ def errTable : ErrKind → String × Bool
   | .inNonObj => ("TypeError", true)
   | .cyclicJSON => ("TypeError", true)
   | .uriMalformed => ("URIError", true)
+  | .frozenWrite => ("TypeError", false)
 
 /-- type_error.go:29 `newErrorObjectError`: the prototype chosen for the script-visible object, by `err.name` -/
 def protoFor (name : String) : String :=
